@@ -2802,6 +2802,9 @@ def float2expansion(dtype, q, length=None, functional=False, base=None):
         if f == dtype(0):
             break
         lst.append(f)
+        if not numpy.isfinite(f):
+            # inf, nan, or a value beyond the range of dtype: the remainder is never zero
+            break
         q = q - type(q)(f)
         if length is not None and len(lst) == length:
             break
